@@ -301,28 +301,7 @@ def r5_no_borrow_across_choice_point(ctx):
     argument that their RefCell bookkeeping is never borrowed while another task can run.  A borrow that is still alive at a call that may
     reach thread::switch lets the scheduler run a task whose next touch of the same primitive panics with `already borrowed`."""
     from engine import borrows
-    prog = ctx.prog
-    may_switch = kinds.may_reach_set(prog, {kinds.SWITCH})
-    nb, nf = 0, 0
-    for b in prog.all_bodies({"shuttle_std", "shuttle_engine", "shuttle"}):
-        if "::tests::" in b.nkey or "::test::" in b.nkey:
-            continue
-        sites = [s for s, t in b.calls() if any(borrows.BORROW_RE.search(c) for c in b.callees_of_call(t, passed=False))]
-        if not sites:
-            continue
-        nb += len(sites)
-        nf += 1
-        root = kinds.root_fn(prog, b.nkey)
-        bad = borrows.held_across_yield(prog, b, may_switch)
-        if root in BORROW_OK:
-            ctx.ob("C04.R5", "borrow-table|" + root, True, "`%s` is a table entry: %s" % (root, BORROW_OK[root]), loc=b.loc(), nontrivial=False)
-            continue
-        ctx.ob("C04.R5", "no-borrow-across-choice-point|" + b.nkey, not bad,
-               "`%s`: no RefCell borrow is alive at a call that may reach a choice point (%d borrow site(s))" % (b.nkey, len(sites)) if not bad else
-               "`%s` keeps the RefCell borrow taken at %s alive across `%s` at %s, which may reach thread::switch: a task scheduled there panics with "
-               "`already borrowed` on its next operation on the same object" % (b.nkey, b.loc(bad[0][0]), bad[0][2], b.loc(bad[0][1])),
-               loc=b.loc(bad[0][1]) if bad else b.loc())
-    ctx.floor("C04.R5", "RefCell borrow sites examined", nb, 60)
+    borrows.rule_no_guard_across_choice_point(ctx, "C04.R5", {"shuttle_std", "shuttle_engine", "shuttle"}, BORROW_OK, 60)
 
 
 RULES = [("C04.R1", r1_accounting), ("C04.R2", r2_holder), ("C04.R2", r2b_holder_after_acquire), ("C04.R3", r3_atomics), ("C04.R4", r4_poison),
